@@ -465,8 +465,9 @@ impl WindowedStream {
                             windows.push(window);
                         }
 
-                        // Slide forward (overlap 50%)
-                        current_start += window_ms / 2;
+                        // Slide forward (overlap 50%); always advance, or a 1 ms window
+                        // (step 0) would never leave the loop
+                        current_start += (window_ms / 2).max(1);
                     }
                 }
             }
